@@ -19,6 +19,8 @@ pub enum EncKind {
     Chunk { seed: u64 },
     /// the real `PatternEncoder("{m}")`
     Pattern,
+    /// the real `JsonEncoder` (one JSON object per line; the frame is its `message`)
+    Json,
 }
 
 #[derive(Debug)]
@@ -40,7 +42,6 @@ fn header_id(b: &[u8]) -> Option<(u16, u16)> {
 
 impl Encode for ChunkEncoder {
     fn encode(&self, w: &mut dyn encode::Write, record: &log::Record) -> anyhow::Result<()> {
-        use std::io::Write;
         let s = record.args().to_string();
         let b = s.as_bytes();
         let mut rng = Rng::new(self.seed ^ (b.len() as u64).wrapping_mul(0x9E37) ^ fold(b));
@@ -84,6 +85,7 @@ pub fn make_encoder(k: &EncKind) -> Box<dyn Encode> {
     match k {
         EncKind::Chunk { seed } => Box::new(ChunkEncoder { seed: *seed, fail: vec![] }),
         EncKind::Pattern => Box::new(log4rs::encode::pattern::PatternEncoder::new("{m}")),
+        EncKind::Json => Box::new(log4rs::encode::json::JsonEncoder::new()),
     }
 }
 
@@ -140,3 +142,104 @@ pub const WATCHDOG_S: f64 = 20.0;
 
 /// 2024-03-01T12:00:00Z — default start instant of runs that do not care about time.
 pub const T0_NS: i64 = 1_709_294_400_000_000_000;
+
+/// Maps a file written through the JSON encoder back to the stream of
+/// messages it carries. Every line must be one JSON object as the encoder
+/// writes it; if `fragments` is set, strict prefixes of such objects (what a
+/// failed encode leaves in the appender's own buffer) may precede an object
+/// on its line and contribute the part of the message they hold.
+pub fn decode_json(data: &[u8], fragments: bool) -> Result<Vec<u8>, (usize, String)> {
+    const START: &[u8] = b"{\"time\":";
+    const MSG: &[u8] = b"\"message\":\"";
+    fn find(h: &[u8], n: &[u8], from: usize) -> Option<usize> {
+        if h.len() < n.len() {
+            return None;
+        }
+        (from..=h.len() - n.len()).find(|i| &h[*i..*i + n.len()] == n)
+    }
+    fn fragment(seg: &[u8], out: &mut Vec<u8>) -> Result<(), String> {
+        // a strict prefix of an object: up to and into the message value
+        if !(seg.starts_with(START) || START.starts_with(seg)) {
+            return Err("bytes that are not the beginning of a record".into());
+        }
+        if let Some(m) = find(seg, MSG, 0) {
+            let raw = &seg[m + MSG.len()..];
+            let s = match std::str::from_utf8(raw) {
+                Ok(s) => s,
+                Err(e) => std::str::from_utf8(&raw[..e.valid_up_to()]).unwrap(),
+            };
+            // the string value up to its closing quote, or as much of it as is there
+            let b = s.as_bytes();
+            let mut i = 0;
+            let mut end = b.len();
+            while i < b.len() {
+                match b[i] {
+                    b'"' => {
+                        end = i;
+                        break;
+                    }
+                    b'\\' => {
+                        let need = if b.get(i + 1) == Some(&b'u') { 6 } else { 2 };
+                        if i + need > b.len() {
+                            end = i; // escape cut short
+                            break;
+                        }
+                        i += need;
+                    }
+                    _ => i += 1,
+                }
+            }
+            if let Ok(v) = serde_json::from_str::<String>(&format!("\"{}\"", &s[..end])) {
+                out.extend_from_slice(v.as_bytes());
+                return Ok(());
+            }
+            return Err("fragment whose message part cannot be read".into());
+        }
+        Ok(())
+    }
+    let mut out = vec![];
+    let mut p = 0;
+    while p < data.len() {
+        let nl = data[p..].iter().position(|b| *b == b'\n').map(|i| p + i);
+        let end = nl.unwrap_or(data.len());
+        let line = &data[p..end];
+        // fragments in front of the object, each beginning like a record
+        let mut q = 0;
+        let mut starts = vec![];
+        while let Some(i) = find(line, START, q) {
+            starts.push(i);
+            q = i + 1;
+        }
+        let obj_at = if nl.is_some() { starts.last().copied() } else { None };
+        let lead_end = obj_at.unwrap_or(line.len());
+        if lead_end > 0 || obj_at.is_none() {
+            if !line.is_empty() && !fragments && nl.is_some() {
+                return Err((p, format!("line is not one JSON object: {:?}", String::from_utf8_lossy(&line[..line.len().min(80)]))));
+            }
+            // split the lead into fragments at the record beginnings
+            let mut cuts: Vec<usize> = starts.iter().copied().filter(|i| *i < lead_end).collect();
+            if cuts.first() != Some(&0) && lead_end > 0 {
+                cuts.insert(0, 0);
+            }
+            cuts.push(lead_end);
+            for w in cuts.windows(2) {
+                if let Err(why) = fragment(&line[w[0]..w[1]], &mut out) {
+                    return Err((p + w[0], why));
+                }
+            }
+        }
+        if let Some(at) = obj_at {
+            let v: serde_json::Value = match serde_json::from_slice(&line[at..]) {
+                Ok(v) => v,
+                Err(e) => return Err((p + at, format!("not a JSON object: {}", e))),
+            };
+            let ok = v.get("level").and_then(|x| x.as_str()) == Some("INFO") && v.get("target").and_then(|x| x.as_str()) == Some("sim") && v.get("time").is_some() && v.get("thread_id").is_some();
+            match v.get("message").and_then(|x| x.as_str()) {
+                Some(m) if ok => out.extend_from_slice(m.as_bytes()),
+                _ => return Err((p + at, "JSON object without the fields the encoder writes".into())),
+            }
+        }
+        p = end + 1;
+    }
+    Ok(out)
+}
